@@ -240,7 +240,25 @@ def check_reentrant(case, acc):
     acc.tag("reentrant_resolver_cases")
 
 
+def check_mixed(case, acc):
+    """Patterns on a tree that mixes node classes with different separators: the separator of the start node's class counts."""
+    from .c07 import build_mixed
+
+    nodes = build_mixed(case["seps"])
+    labels = forest.Labels(nodes)
+    preorder_index = {id(n): i for i, n in enumerate(rr.preorder(nodes[0]))}
+    for start in nodes:
+        sep = type(start).separator
+        sub = {"sep": sep, "pathattr": "name", "names": ["r", "a", "b", "c", "d", "e"], "shape": "mixed"}
+        for pattern in (sep + "r" + sep + "*", sep + "r" + sep + "a" + sep + "?", sep + "*" + sep + "*" + sep + "c", "..", "*", "**" + sep + "e", sep + "r" + sep + "**", sep + "r" + sep + "zz", sep + "r" + sep + "a" + sep + "c" + sep + "e"):
+            check_query(sub, nodes, labels, preorder_index, case["ignorecase"], start, pattern, True, acc, lambda ic, st_, pat: dict(case, pattern=pat))
+    acc.nontrivial(True)
+    acc.tag("trees_mixing_separators")
+
+
 def check_case(case, acc):
+    if case.get("kind") == "mixed":
+        return check_mixed(case, acc)
     if case.get("kind") == "reentrant":
         return check_reentrant(case, acc)
     if case.get("kind") == "special":
@@ -399,7 +417,7 @@ def plan(tier, seed):
     max_nodes, maxlen = (4, 3) if tier == "quick" else (5, 4)
     tasks = [{"engine": "enum", "max_nodes": max_nodes, "maxlen": maxlen, "index": i, "count": nshards * 2} for i in range(nshards * 2)]
     tasks += [{"engine": "hyp", "examples": examples, "seed": seed * 1000 + i} for i in range(nshards)]
-    tasks += [{"engine": "reentrant"}]
+    tasks += [{"engine": "reentrant"}, {"engine": "mixed"}]
     tasks += [{"engine": "special", "seed": seed * 1000 + 700 + i, "examples": 8 if tier == "quick" else 60} for i in range(4)]
     if tier == "thorough":
         # coverage-guided supplement: 16 libFuzzer campaigns on the same strategy + oracle (skipped if atheris is unavailable)
@@ -412,6 +430,15 @@ def run_task(task, acc):
         from ..core import run_fuzz_task
 
         return run_fuzz_task(PROP_ID, task, acc)
+    if task["engine"] == "mixed":
+        for seps in (["/", ":"], [":", "/"], ["|", "::", "/"], ["::", "-"]):
+            for ic in (False, True):
+                case = {"kind": "mixed", "seps": seps, "ignorecase": ic}
+                exc = acc.evaluate(check_case, case, enumerated=False)
+                if exc is not None:
+                    acc.add_violation(case, exc)
+                    return
+        return
     if task["engine"] == "reentrant":
         for inner, path in (("glob", "*/x"), ("glob", "**"), ("get", "p/x"), ("glob", "q"), (None, None)):
             case = {"kind": "reentrant", "inner": inner, "inner_path": path}
